@@ -47,6 +47,9 @@ func ParseGlyf(src []byte, locaOffsets []uint32) (Glyf, error) {
 		if start == end {
 			continue
 		}
+		if start > end || int(end) > len(src) {
+			return nil, fmt.Errorf("invalid glyph location (%d, %d) for table of length %d", start, end, len(src))
+		}
 		out[i], _, err = ParseGlyph(src[start:end])
 		if err != nil {
 			return nil, err
@@ -104,6 +107,11 @@ func (sg *SimpleGlyph) parsePoints(src []byte, _ int) error {
 	}
 
 	numPoints := int(sg.EndPtsOfContours[len(sg.EndPtsOfContours)-1]) + 1
+	for _, end := range sg.EndPtsOfContours {
+		if int(end) >= numPoints {
+			return errors.New("invalid simple glyph contours end points")
+		}
+	}
 
 	const repeatFlag = 0x08
 
